@@ -382,7 +382,10 @@ def main():
     obl = leanside.obligations(pid, tier) if use_model else {"ok": True, "theorems": [], "note": "skipped (VERIF_NO_MODEL)"}
     # extra static obligations of the property (e.g. the regenerated API table of C19)
     # 2+3. correspondence and search
-    tot = explore(pid, tier, seed, use_model and obl.get("driver_ok", True))
+    import drift
+    drifted = drift.drifted(pid) if tier == "quick" and os.environ.get("VERIF_NO_ESCALATE") != "1" else []
+    run_tier = "thorough" if drifted else tier      # source drift: the quick tier runs the thorough generators
+    tot = explore(pid, run_tier, seed, use_model and obl.get("driver_ok", True))
     if tot["internal"]:
         print("INTERNAL ERROR in the machinery (not a verdict):", file=sys.stderr)
         print(tot["internal"][0]["trace"], file=sys.stderr)
@@ -482,6 +485,7 @@ def main():
                             "distinct = distinct canonical case (sha1 of the case)"),
             "traces_validated_against_impl": tot["n"] if (use_model and obl.get("driver_ok", True)) else 0,
             "correspondence_disagreements": len(tot["disagree"]),
+            "escalated_because_sources_differ_from_recorded_baseline": drifted,
             "exhaustive": False,
             "exhaustive_note": "small-scope enumerations inside the run are complete (see histogram keys exh*); the whole space is unbounded",
             "histogram": tot["hist"],
